@@ -484,8 +484,17 @@ def _pingpong(u: U, mod, client):
     cls = "ClientWebSocketResponse" if client else "WebSocketResponse"
     h = u.load(mod, f"{cls}._handle_ping_pong_exception")
     object.__getattribute__(ws, "_o_methods")["_handle_ping_pong_exception"] = lambda self, e: h(self, e)
-    f = u.load(mod, f"{cls}._pong_not_received")
-    out = u.call(f, ws)
+    # two ways in: the pong timer fires, or the task that sends the heartbeat PING failed (_ping_task_done hands its
+    # exception straight to _handle_ping_pong_exception - e.g. the PING of a heartbeat re-armed by the peer's last
+    # frames, written on the transport the finished close() has just closed)
+    entry = ("pong_timer", "ping_failed")[u.choose(2, "entry")]
+    code0 = w.peer_code if closed else None
+    fields(ws)["_close_code"] = code0
+    if entry == "pong_timer":
+        f = u.load(mod, f"{cls}._pong_not_received")
+        out = u.call(f, ws)
+    else:
+        out = u.call(h, ws, Boom("ping could not be written"))
     which = "client" if client else "server"
     fs = fields(ws)
     names = _names(w)
@@ -493,6 +502,11 @@ def _pingpong(u: U, mod, client):
     if closed:
         u.check(f"C13.{which}.pong_timeout.noop_when_closed", "transport.close" not in names and "feed" not in names,
                 "an already closed session is left alone")
+        u.check(f"C13.{which}.pingpong.closed_session_is_frozen",
+                And(fs["_close_code"] == code0 if code0 is not None else fs["_close_code"] is None,
+                    fs["_exception"] is None),
+                "whichever way a heartbeat failure arrives, it does not rewrite the outcome of a session that is already "
+                "closed: the close code stays the one of the handshake, no exception appears")
         return
     u.check(f"C13.{which}.pong_timeout.abnormal_closure",
             And(fs["_closed"] is True, fs["_close_code"] == ABNORMAL, "transport.close" in names, fs["_exception"] is not None),
